@@ -29,6 +29,12 @@ def ser(v, depth=0):
         return {"t": "dict", "v": {str(k): ser(x, depth + 1) for k, x in v.items()}}
     if isinstance(v, (bytes, bytearray)):
         return {"t": "bytes", "v": bytes(v).hex()}
+    if tn == "File" and hasattr(v, "payload"):
+        try:
+            pos = v.payload.tell(); data = v.payload.read(); v.payload.seek(pos)
+        except Exception:
+            data = b""
+        return {"t": "file", "v": bytes(data).hex(), "file_name": getattr(v, "file_name", None), "mime_type": getattr(v, "mime_type", None)}
     if hasattr(type(v), "__attrs_attrs__"):
         fields = {}
         addl = None
@@ -54,6 +60,23 @@ def jsonable(x):
     if isinstance(x, dict):
         return {"@d": {str(k): jsonable(v) for k, v in x.items()}} if any(not isinstance(k, str) for k in x) or any(str(k).startswith("@") for k in x) else {k: jsonable(v) for k, v in x.items()}
     return {"@nonjson": type(x).__name__, "repr": repr(x)[:120]}
+
+
+def json_view(v):
+    """what a parsed response value denotes as JSON (models via to_dict, enums via value, dates via isoformat)"""
+    if hasattr(v, "to_dict") and callable(v.to_dict):
+        return jsonable(v.to_dict())
+    if isinstance(v, enum.Enum):
+        return v.value
+    if isinstance(v, (datetime.date, datetime.datetime)):
+        return v.isoformat()
+    if isinstance(v, uuid.UUID):
+        return str(v)
+    if isinstance(v, list):
+        return [json_view(x) for x in v]
+    if type(v).__name__ == "File":
+        return {"@file": ser(v)["v"]}
+    return jsonable(v)
 
 
 def exc_info(e):
@@ -214,17 +237,48 @@ def op_call(pkg, op):
         else:
             r = fn(client=client, **kwargs)
         if variant.endswith("detailed"):
-            res["result"] = {"status": int(r.status_code), "content_hex": r.content.hex(), "headers": [[k, v] for k, v in r.headers.items()], "parsed": ser(r.parsed)}
+            res["result"] = {"status": int(r.status_code), "content_hex": r.content.hex(), "headers": [[k, v] for k, v in r.headers.items()], "parsed": ser(r.parsed),
+                             "parsed_json": json_view(r.parsed), "parsed_cls": type(r.parsed).__name__}
         else:
-            res["result"] = {"parsed": ser(r)}
+            res["result"] = {"parsed": ser(r), "parsed_json": json_view(r), "parsed_cls": type(r).__name__}
     except BaseException as e:  # noqa
         res["exc"] = exc_info(e)
         res["exc"]["tb"] = traceback.format_exc()[-600:]
+        res["exc_attrs"] = {"status_code": getattr(e, "status_code", None), "content_hex": getattr(e, "content", b"").hex() if isinstance(getattr(e, "content", None), bytes) else None}
     res["requests"] = captured
     return res
 
 
-OPS = {"roundtrip": op_roundtrip, "import_all": op_import_all, "signature": op_signature, "construct": op_construct, "call": op_call}
+def op_get_kwargs(pkg, op):
+    """call the module-level _get_kwargs(**kwargs) of an endpoint module and serialise the returned dict"""
+    mod = importlib.import_module(pkg + "." + op["module"])
+    try:
+        kwargs = {k: build_arg(pkg, v) for k, v in (op.get("kwargs") or {}).items()}
+        kw = mod._get_kwargs(**kwargs)
+        return {"kwargs": {k: ser(v) for k, v in kw.items()}}
+    except BaseException as e:  # noqa
+        return {"exc": exc_info(e)}
+
+
+def op_parse(pkg, op):
+    """call _parse_response / _build_response on a canned httpx.Response"""
+    import httpx
+    mod = importlib.import_module(pkg + "." + op["module"])
+    client_mod = importlib.import_module(pkg + ".client")
+    rsp = op["response"]
+    kw = {}
+    if "content_hex" in rsp:
+        kw["content"] = bytes.fromhex(rsp["content_hex"])
+    client = client_mod.Client(base_url="http://testserver", raise_on_unexpected_status=bool(op.get("raise_on_unexpected_status")))
+    response = httpx.Response(rsp.get("status", 200), headers=rsp.get("headers") or None, request=httpx.Request("GET", "http://testserver/"), **kw)
+    try:
+        parsed = mod._parse_response(client=client, response=response)
+        return {"parsed": ser(parsed), "parsed_json": json_view(parsed), "parsed_cls": type(parsed).__name__}
+    except BaseException as e:  # noqa
+        return {"exc": exc_info(e), "exc_attrs": {"status_code": getattr(e, "status_code", None), "content_hex": getattr(e, "content", b"").hex() if isinstance(getattr(e, "content", None), bytes) else None}}
+
+
+OPS = {"roundtrip": op_roundtrip, "import_all": op_import_all, "signature": op_signature, "construct": op_construct, "call": op_call, "get_kwargs": op_get_kwargs, "parse": op_parse}
 
 
 def main():
